@@ -4,6 +4,7 @@ package main
 
 import (
 	"fmt"
+	"go/constant"
 	"go/token"
 	"regexp/syntax"
 	"sort"
@@ -162,6 +163,68 @@ func runC05(c *Ctx) {
 		}
 		cut := ""
 		n := 0
+		// the set of characters a one-argument predicate accepts, by evaluating it on every ASCII character
+		predSet := func(pred *ssa.Function) (string, bool) {
+			if pred == nil || pred.Blocks == nil || len(pred.Params) != 1 {
+				return "", false
+			}
+			set := ""
+			for ch := int64(1); ch < 128; ch++ {
+				g := NewGate(c.P)
+				sm := g.EvalArgs(pred, []*E{g.U.ConstVal(constantInt(ch), pred.Params[0].Type())}, nil)
+				if len(sm.Rets) == 0 || len(sm.Effects) != 0 {
+					return "", false
+				}
+				r := g.RetExpr(sm, 0)
+				if r.Op != "bool" || (r.B != True && r.B != False) {
+					return "", false
+				}
+				if r.B == True {
+					set += string(rune(ch))
+				}
+			}
+			return set, true
+		}
+		// a byte of the pattern (pattern[i], or the element of a range over it)
+		isPatternByte := func(v ssa.Value) bool {
+			for {
+				switch x := v.(type) {
+				case *ssa.Convert:
+					v = x.X
+					continue
+				case *ssa.Lookup:
+					return isStringT(x.X.Type())
+				case *ssa.Index:
+					return isStringT(x.X.Type())
+				case *ssa.Extract:
+					if nx, ok := x.Tuple.(*ssa.Next); ok && nx.IsString && x.Index == 2 {
+						return true
+					}
+				}
+				return false
+			}
+		}
+		eachInstrG(c.P, maskX, func(_ *ssa.BasicBlock, in ssa.Instruction) {
+			// a scan byte by byte: the split set is what the byte is compared with / what the byte
+			// predicate accepts
+			if bo, ok := in.(*ssa.BinOp); ok && bo.Op == token.EQL {
+				for i, side := range []ssa.Value{bo.X, bo.Y} {
+					other := []ssa.Value{bo.Y, bo.X}[i]
+					if k, isK := other.(*ssa.Const); isK && k.Value != nil && isPatternByte(side) {
+						if v, exact := constant.Int64Val(constant.ToInt(k.Value)); exact && v > 0 && v < 128 {
+							cut += string(rune(v))
+							n++
+						}
+					}
+				}
+			}
+			if cl, ok := in.(*ssa.Call); ok && cl.Call.StaticCallee() != nil && c.P.IsLibFunc(cl.Call.StaticCallee()) && len(cl.Call.Args) == 1 && isPatternByte(cl.Call.Args[0]) {
+				if set, ok := predSet(cl.Call.StaticCallee()); ok {
+					cut += set
+					n++
+				}
+			}
+		})
 		eachInstr(maskX, func(_ *ssa.BasicBlock, in ssa.Instruction) {
 			if cl, ok := in.(*ssa.Call); ok && cl.Call.StaticCallee() != nil {
 				switch calleeName(cl.Call.StaticCallee()) {
@@ -316,7 +379,7 @@ func runC05(c *Ctx) {
 	{
 		g := NewGate(c.P)
 		g.Inline = func(_, callee *ssa.Function, depth int) bool {
-			return depth <= 2 && callee.Signature.Recv() != nil && len(callee.Blocks) == 1
+			return depth <= 2 && callee.Signature.Recv() != nil && (len(callee.Blocks) == 1 || (depth <= 1 && leafPredicate(callee) && len(fieldReadsIn(callee, "rules", "NetworkRule", "Shortcut")) > 0))
 		}
 		s := g.Eval(match)
 		u := g.U
